@@ -1,6 +1,7 @@
 package main
 
 import (
+	"sync/atomic"
 	"syscall"
 	"fmt"
 	"bufio"
@@ -56,6 +57,7 @@ type scriptedReader struct {
 	combine bool // a data run and the error that follows it are returned by the same Read call
 	calls   []time.Time
 	kinds   []string
+	halted  int32
 }
 
 var errTimeout = errors.New("read /dev/ttyACM0: i/o timeout")
@@ -83,7 +85,15 @@ var otherErrors = []error{
 	io.ErrClosedPipe,
 }
 
+func (r *scriptedReader) halt() { atomic.StoreInt32(&r.halted, 1) }
+
 func (r *scriptedReader) Read(p []byte) (int, error) {
+	if atomic.LoadInt32(&r.halted) != 0 {
+		select {} // the case is over
+	}
+	if len(r.calls) > 200000 {
+		time.Sleep(time.Millisecond) // a reader that is polled without pause: keep the log of calls bounded in time and space
+	}
 	r.calls = append(r.calls, time.Now())
 	if r.pos >= len(r.script) {
 		r.kinds = append(r.kinds, "E")
@@ -145,6 +155,25 @@ func runScript(script []scriptEntry, timeoutMs, waitMs int, chunked bool, cls st
 	if bufSize > 0 {
 		br = bufio.NewReaderSize(sr, bufSize)
 	}
+	// the machine's own hiccups are measured independently of the code under test: a ticker that should wake every
+	// millisecond records the longest delay it saw during the run
+	var worstLag int64
+	stopLag := make(chan struct{})
+	go func() {
+		last := time.Now()
+		for {
+			select {
+			case <-stopLag:
+				return
+			case <-time.After(time.Millisecond):
+			}
+			now := time.Now()
+			if d := int64(now.Sub(last)) - int64(time.Millisecond); d > atomic.LoadInt64(&worstLag) {
+				atomic.StoreInt64(&worstLag, d)
+			}
+			last = now
+		}
+	}()
 	go func() { ret <- fh.Handle(time.Date(2023, 5, 10, 12, 0, 0, 0, time.UTC), br) }()
 	deadline := time.After(20 * time.Second)
 collect:
@@ -176,15 +205,12 @@ collect:
 	case <-time.After(5 * time.Second):
 	}
 	ev.ElapsedMs = int(time.Since(t0).Milliseconds())
-	// stall guard: inside a soft run the gap between the first and the second result must be about
-	// WaitTimeOnEOF; if the machine itself stalled for more than half the tolerance the run proves nothing
-	for i := 1; i < len(sr.calls) && i < len(sr.kinds); i++ {
-		soft := func(k string) bool { return k == "E" || k == "T" }
-		if soft(sr.kinds[i]) && soft(sr.kinds[i-1]) && (i < 2 || !soft(sr.kinds[i-2])) {
-			if timeoutMs > 0 && sr.calls[i].Sub(sr.calls[i-1]) > time.Duration(timeoutMs)*time.Millisecond/2 {
-				ev.Stalled = true
-			}
-		}
+	close(stopLag)
+	sr.halt() // a handler that never gives up must not keep the processor (or the memory) busy after the verdict
+	// stall guard: if the machine itself stalled for more than a third of the tolerance during this run, the run proves
+	// nothing (the pauses the code under test makes between its reads are its own business and are NOT looked at here)
+	if timeoutMs > 0 && time.Duration(atomic.LoadInt64(&worstLag)) > time.Duration(timeoutMs)*time.Millisecond/3 {
+		ev.Stalled = true
 	}
 	return ev
 }
